@@ -25,7 +25,7 @@
     nbasis.  [c08_lww_row_pinned_tree] documents the last-write-wins assignment of the pinned tree (defect 10). *)
 From Coq Require Import List Arith Lia ZArith Bool QArith Qcanon.
 Import ListNotations.
-From PGV Require Import BasisCoxDeBoor CoxDeBoorGen FindSpan CubicUniform CollocRow Sums SplineModel SplineTheory SplineQc InterpModel InterpTheory Interp2D QuadTheory GrevilleTheory QuadSumTheory CirculantTheory InterpQc.
+From PGV Require Import BasisCoxDeBoor CoxDeBoorGen FindSpan CubicUniform CollocRow Sums SplineModel SplineTheory SplineQc InterpModel InterpTheory Interp2D QuadTheory GrevilleTheory QuadSumTheory CirculantTheory CubicQuadTheory InterpQc.
 
 (** the solver: a returned X has the shape n x m and satisfies A.X = B (by construction: the check is part of the definition) *)
 Theorem c08_lin_solve_spec :
